@@ -312,6 +312,9 @@ func runCheck(repo, verif, prop, tier string, keep bool) int {
 	trusted := map[string]bool{}
 	abstracted := map[string]bool{}
 	nObl, nDis, nBounded := 0, 0, 0
+	nCover, nCovered := 0, 0
+	unreachable := []string{}
+	reachableRet, hasRet := map[string]bool{}, map[string]bool{}
 	var solverMs int64
 	for _, r := range results {
 		if r.Missing {
@@ -341,10 +344,27 @@ func runCheck(repo, verif, prop, tier string, keep bool) int {
 			name := trimPkg(o.Name)
 			switch {
 			case o.Cover:
-				if o.Status == "unsat" {
+				nCover++
+				switch {
+				case o.Status == "sat":
+					nCovered++
+					if strings.Contains(name, ".cover.ret") {
+						reachableRet[r.Contract.Key] = true
+					}
+				case o.Status == "unsat" && strings.HasSuffix(name, "cover.requires"):
 					engineErrs = append(engineErrs, fmt.Sprintf("vacuity: precondition of %s is unsatisfiable", trimPkg(r.Contract.Key)))
-				} else if o.Status != "sat" {
+				case o.Status == "unsat" && strings.HasSuffix(name, ".cover.body"):
+					engineErrs = append(engineErrs, fmt.Sprintf("vacuity: loop body unreachable under the invariant: %s", name))
+				case o.Status == "unsat":
+					unreachable = append(unreachable, name)
+				default:
 					assumptions["cover query "+name+" not established ("+o.Status+")"] = true
+					if strings.Contains(name, ".cover.ret") {
+						reachableRet[r.Contract.Key] = true
+					}
+				}
+				if strings.Contains(name, ".cover.ret") {
+					hasRet[r.Contract.Key] = true
 				}
 				continue
 			case o.MustFail:
@@ -389,6 +409,11 @@ func runCheck(repo, verif, prop, tier string, keep bool) int {
 			}
 		}
 	}
+	for k := range hasRet {
+		if !reachableRet[k] {
+			engineErrs = append(engineErrs, "vacuity: no return of "+trimPkg(k)+" is reachable under its precondition")
+		}
+	}
 	// evidence
 	asm, tb, abs := []string{}, []string{}, []string{}
 	for a := range assumptions {
@@ -424,6 +449,9 @@ func runCheck(repo, verif, prop, tier string, keep bool) int {
 			"abstracted_callees": abs,
 			"known_findings":     kfLines,
 			"solver_ms_total":    solverMs,
+			"cover_queries":      nCover,
+			"cover_reachable":    nCovered,
+			"unreachable_returns": unreachable,
 			"samples":            samples,
 		},
 		"assumptions": asm,
